@@ -40,6 +40,8 @@ CERT_DEFECTS = {
     "leaf-unknown-critical-ext": {"leaf": {"unknown_ext": True}},
     "leaf-v1": {"leaf": {"version": 0, "ku": None}},
     "issuer-name-mismatch": {"leaf": {"issuer_cn": "somebody else"}},
+    # the peer sends its own self-signed root as last chain certificate; the verifier trusts a different root with the same name
+    "impostor-root-in-chain": "impostor",
 }
 KEY_DEFECTS = ["sign-key-mismatch", "enc-key-mismatch", "no-client-cert", "empty-client-cert", "certificate-verify-wrong-key"]
 
@@ -57,11 +59,11 @@ CELLS = [c for c in CELLS if c]
 _PKI = {}
 
 
-def _chain(tag, proto, role, tweaks, n_inter=1):
-    k = (tag, proto, role, repr(tweaks), n_inter)
+def _chain(tag, proto, role, tweaks, n_inter=1, include_root=False):
+    k = (tag, proto, role, repr(tweaks), n_inter, include_root)
     if k not in _PKI:
         ch = pki.Chain(tag, n_inter=n_inter, tlcp=(proto == "tlcp" and role == "server"), role=role, tweaks=tweaks)
-        files = ch.write(os.path.join(B.BUILD, "tmp", "c09_%d" % os.getpid(), hashlib.sha1(repr(k).encode()).hexdigest()[:16]))
+        files = ch.write(os.path.join(B.BUILD, "tmp", "c09_%d" % os.getpid(), hashlib.sha1(repr(k).encode()).hexdigest()[:16]), include_root=include_root)
         _PKI[k] = (ch, files)
     return _PKI[k]
 
@@ -76,13 +78,23 @@ def _run(ctx, proto, who, defect, inst, extra_inter):
     shim().freeze_time(pki.T0)
     n_inter = 1 + extra_inter
     tw = CERT_DEFECTS.get(defect) if defect in CERT_DEFECTS else None
+    impostor = tw == "impostor"
+    if impostor:
+        tw = None
     stag = "c09s-%s-%d" % (proto, inst)
     ctag = "c09c-%s-%d" % (proto, inst)
-    sch, sfiles = _chain(stag, proto, "server", tw if (who == "server" and tw) else None, n_inter)
-    cch, cfiles = _chain(ctag, proto, "client", tw if (who == "client" and tw) else None, n_inter)
+    sch, sfiles = _chain(stag, proto, "server", tw if (who == "server" and tw) else None, n_inter, include_root=impostor and who == "server")
+    cch, cfiles = _chain(ctag, proto, "client", tw if (who == "client" and tw) else None, n_inter, include_root=impostor and who == "client")
     kw = {}
     client_cafile, server_cafile = "default", cfiles["root"]
     mutual = who == "client"
+    if impostor:
+        vtag = stag if who == "server" else ctag
+        ich, ifiles = _chain("c09i-%s-%d" % (proto, inst), proto, "server", {"root": {"subject_cn": vtag + " root", "issuer_cn": vtag + " root"}}, 0)
+        if who == "server":
+            client_cafile = ifiles["root"]
+        else:
+            server_cafile = ifiles["root"]
     if defect == "untrusted-root":
         och, ofiles = _chain("c09o-%s-%d" % (proto, inst), proto, "server", None, 0)
         if who == "server":
